@@ -317,9 +317,9 @@ type connCtl struct {
 	// split writes a, pauses, writes b - with nothing else written to the
 	// connection in between (stream kinds only)
 	split func(a []byte, pause time.Duration, b []byte)
-	fin func()
-	rst func()
-	raw func([]byte)
+	fin   func()
+	rst   func()
+	raw   func([]byte)
 }
 
 func (u *UpServer) startStream(useTLS bool) error {
